@@ -30,6 +30,7 @@ type LifeParams struct {
 	MaxAssoc int    `json:"maxAssoc"`
 	Race     bool   `json:"race"`
 	Forced   bool   `json:"forced"` // also run the deterministic forced schedules (counterexamples of the life-cycle model)
+	Scale    bool   `json:"scale"` // the last run has more associations than the node's completion channel has slots (100)
 	Gated    bool   `json:"gated"`  // the interleaving at the scheduling points is chosen by a seeded random scheduler (blocking gates)
 }
 
@@ -125,7 +126,7 @@ func e2eLifeWorker(args []string) error {
 	// the middle of its session clean-up (parked before the first session's delete)
 	overlap := func(kind string) error {
 		cfg := agent.Cfg{N4Addr: p.N4Addr, Datapath: "bess", LogLevel: "warn", ReadTimeout: 30, RespTimeout: "40ms", MaxReqRetries: 1,
-			HBTimer: kind == "hbdead-during-stop", HBInterval: "70ms"}
+			HBTimer: kind != "release-during-stop", HBInterval: "70ms"}
 
 		w, err := e2e.NewWorld(filepath.Join(p.Dir, "overlap-"+kind), p.AgentBin, p.Trace, cfg, int(p.Seed%1000)*1000+950)
 		if err != nil {
@@ -172,6 +173,12 @@ func e2eLifeWorker(args []string) error {
 			switch kind {
 			case "release-during-stop":
 				_ = w.Peer("p1").Send(messageRelease(w.Peer("p1")))
+			case "hb-during-stop":
+				// the peer's own heartbeats keep arriving while its sessions are being removed (heartbeat timer on)
+				for i := 0; i < 3; i++ {
+					_ = w.Peer("p1").Send(messageHeartbeat(w.Peer("p1")))
+					time.Sleep(5 * time.Millisecond)
+				}
 			case "hbdead-during-stop":
 				if monitor != 0 {
 					_ = w.Agent.Go(monitor)
@@ -212,7 +219,7 @@ func e2eLifeWorker(args []string) error {
 			}
 		}
 
-		for _, k := range []string{"release-during-stop", "hbdead-during-stop"} {
+		for _, k := range []string{"release-during-stop", "hbdead-during-stop", "hb-during-stop"} {
 			if err := overlap(k); err != nil {
 				sum.Err = err.Error()
 				return err
@@ -222,11 +229,13 @@ func e2eLifeWorker(args []string) error {
 
 	for run := 0; run < p.Runs; run++ {
 		hb := rng.Intn(2) == 0
-		cfg := agent.Cfg{N4Addr: p.N4Addr, Datapath: "bess", LogLevel: "warn", ReadTimeout: 1 + rng.Intn(2), RespTimeout: "40ms", MaxReqRetries: 1,
-			HBTimer: hb, HBInterval: "70ms", UEIPAlloc: true, UEPool: "10.250.0.0/24"}
+		// (time-outs wide enough for a loaded machine: a peer whose answers are held up for longer than interval + 2 time-outs is
+		// given up - correctly -, and the script would not know)
+		cfg := agent.Cfg{N4Addr: p.N4Addr, Datapath: "bess", LogLevel: "warn", ReadTimeout: 1 + rng.Intn(2), RespTimeout: "120ms", MaxReqRetries: 1,
+			HBTimer: hb, HBInterval: "200ms", UEIPAlloc: true, UEPool: "10.250.0.0/24"}
 		if p.Race {
 			cfg.Env = []string{"GORACE=halt_on_error=0"}
-			cfg.RespTimeout, cfg.HBInterval = "80ms", "140ms" // the instrumented agent is slower
+			cfg.RespTimeout, cfg.HBInterval = "200ms", "300ms" // the instrumented agent is slower
 		}
 
 		if !hb {
@@ -247,7 +256,11 @@ func e2eLifeWorker(args []string) error {
 
 		nassoc := rng.Intn(p.MaxAssoc + 1)
 		if run%7 == 6 && !p.Gated {
-			nassoc = 40 + rng.Intn(60) // one scale point
+			nassoc = 40 + rng.Intn(100) // one scale point
+		}
+
+		if p.Scale && run == p.Runs-1 && !p.Gated {
+			nassoc = 101 + rng.Intn(30)
 		}
 
 		var sched *e2e.RandomScheduler
@@ -259,9 +272,9 @@ func e2eLifeWorker(args []string) error {
 
 			if hb {
 				// three consecutive steps of the stalled class must fit into interval + 2 time-outs
-				w.SchedMaxHold = 40 * time.Millisecond
+				w.SchedMaxHold = 100 * time.Millisecond
 				if p.Race {
-					w.SchedMaxHold = 80 * time.Millisecond
+					w.SchedMaxHold = 150 * time.Millisecond
 				}
 			}
 
@@ -370,7 +383,7 @@ func e2eLifeWorker(args []string) error {
 
 // C10: associations end cleanly and the agent always stops.
 func C10(c *core.Ctx) {
-	c.SetCov("rule", "randomised timing of {Association Release, unanswered heartbeats, read time-out, SIGTERM} over 0..8 live associations (one scale point with 40-100) with sessions and "+
+	c.SetCov("rule", "randomised timing of {Association Release, unanswered heartbeats, read time-out, SIGTERM} over 0..8 live associations (scale points with 40-140, one of them above the 100 completions the node buffers) with sessions and "+
 		"requests in flight; process exit status / time, panic headline, delete errors at the datapath, table residue, re-association of the same peer and the other associations' steps are judged by "+
 		"the C10 / C02 / C03 / C05 invariants; evaluations = script steps, distinct_nontrivial = agent incarnations stopped")
 
@@ -410,7 +423,7 @@ func C10(c *core.Ctx) {
 
 		// a quarter of the shards force interleavings through the scheduling gates
 		return "e2e-life", LifeParams{Dir: dir, Trace: trace, AgentBin: filepath.Join(c.BinDir, bin), N4Addr: n4For(i), Seed: c.Seed*1000 + 100 + int64(i), Runs: runs, MaxAssoc: 8,
-			Race: race, Gated: i%4 >= 2, Forced: i < 2}
+			Race: race, Gated: i%4 >= 2, Forced: i < 2, Scale: i%8 == 4}
 	})
 	judgeE2E(c, res, map[string]bool{"InEnvelope": true})
 }
